@@ -141,7 +141,13 @@ Fixpoint read_list_loop (b : bits) (ts : list token) (pos after : Z) : res (list
       Ok ((match v with ValNone => vs | _ => v :: vs end), pos'')
   end.
 
+(* _readlist builds the whole list of Dtypes first (an invalid token anywhere fails here, in order), and only then
+   _read_dtype_list looks at the structure (more than one filler, a variable-length token after the filler) *)
+Fixpoint check_tokens (ts : list token) : res unit :=
+  match ts with [] => Ok tt | t :: rest => do _ <- token_bitlength t; check_tokens rest end.
+
 Definition read_dtype_list (b : bits) (ts : list token) (pos : Z) : res (list value * Z) :=
+  do _ <- check_tokens ts;
   do after <- scan_tokens ts false 0;
   read_list_loop b ts pos after.
 
